@@ -85,6 +85,19 @@ def shimmed():
         ff.np, finter.np = o1, o2
 
 
+def probe_inputs(src, base: dict, n: int = 60, seed: int = 0):
+    """When z3 cannot produce IEEE values for a symbolic mismatch in time (products of unknowns), the mismatch is still
+    real at the level of the abstraction; look for a concrete demonstration among inputs built from a few ordinary values
+    (the integer inputs keep the solver's values).  Only a demonstration that replays on the machine code is reported."""
+    import random
+    rng = random.Random(seed)
+    nice = [0.0, 1.0, -1.0, 0.5, 2.0, 0.25, 1.5, 3.0, -0.5, 0.9, 0.1, 10.0, -2.0]
+    tols = [1e-9, 1e-3, 0.3, 1.0, 5.0, 0.0]
+    for _ in range(n):
+        f = {k: (rng.choice(tols) if k == 'tol' else rng.choice(nice)) for k in src.floats}
+        yield {'f': f, 'i': dict(base.get('i', {}))}
+
+
 class SymEngine:
     """`FortranEngine.ENGINE` stand-in: executes the generated source with `fsrc` (f2py's call signature)."""
 
@@ -192,6 +205,8 @@ def explore_fsolve(cfg: dict, replay_inputs=None) -> dict:
         for n in names:
             for j in range(L):
                 m.__dict__['_' + n][j] = cells[n][j]
+        if cfg.get('inst_check') is not None:
+            m.check = [check[k] for k in cfg['inst_check']]
         tol = src.f('tol')
         min_iter = src.i('min_iter') if cfg['min_iter'] == 'sym' else cfg['min_iter']
         offset = src.i('offset') if cfg['offset'] == 'sym' else 0
@@ -222,7 +237,7 @@ def explore_fsolve(cfg: dict, replay_inputs=None) -> dict:
         out['status_all'] = [str(x) for x in m.status]
         # reference: the state machine of C02 on per-pass values from the AST interpreter
         rcells = {n: [src.f(f'{n}_{j}') for j in range(L)] for n in names}
-        ref_check = check
+        ref_check = check if cfg.get('inst_check') is None else [check[k] for k in cfg['inst_check']]
         if isinstance(offset, int) and offset == 0:
             off_ok = True
         else:
@@ -245,7 +260,7 @@ def explore_fsolve(cfg: dict, replay_inputs=None) -> dict:
                     scratch[eq.target.name][t_pos] = v
                 sc.v[p] = vals
         ref = ref_solve_t(rcells, '-', -1, sc, t=t, L=L, min_iter=min_iter, max_iter=B, tol=tol, offset=offset, failures=cfg['failures'],
-                          errors=cfg['errors'], cfe=True, endogenous=check, check=ref_check)
+                          errors=cfg['errors'], cfe=True, endogenous=check, check=ref_check, targets=check)
         if twin:
             lf._falsify(ref, twin)      # reachability twin: a deliberately wrong oracle must be reported and replayed
         bad: List[str] = []
@@ -378,15 +393,21 @@ def explore_fsolve(cfg: dict, replay_inputs=None) -> dict:
             res['outcomes'][okey] = res['outcomes'].get(okey, 0) + 1
             if bad:
                 res['mismatch_paths'] += 1
-                if len(res['candidates']) >= 2:
+                if len([c for c in res['candidates'] if c['replay']['bad']]) >= 1 or len(res['candidates']) >= 4:
                     continue
-                inp = witness(ctx, holder['src'], [z3.Or(*terms)] if terms and len(terms) == len(bad) else [], timeout_ms=8000, uf_fallback=True)
+                inp = witness(ctx, holder['src'], [z3.Or(*terms)] if terms and len(terms) == len(bad) else [], timeout_ms=12000, uf_fallback=True)
                 if inp is None:
                     res['spurious_under_uf'] += 1
                     continue
                 cb, _, cout = run(ConSrc(inp), False)
                 if out.get('exc') == 'OutOfBounds' and not cb:
                     cb = bounds_checked_replay(inp)
+                if not cb:
+                    for alt in probe_inputs(holder['src'], inp, seed=res['paths']):
+                        cb2, _, cout2 = run(ConSrc(alt), False)
+                        if cb2:
+                            inp, cb, cout = alt, cb2, cout2
+                            break
                 res['candidates'].append({'symbolic': bad, 'inputs': inp,
                                           'replay': {'bad': cb, 'impl': cout, 'ref': None, 'python_engine': python_engine(inp),
                                                      'text': text}})
@@ -413,7 +434,8 @@ def explore_frange(cfg: dict, replay_inputs=None) -> dict:
     names = list(Py.NAMES)
     B = cfg['B']
     L = Py.LAGS + Py.LEADS + cfg['n_periods']
-    span = list(range(1990, 1990 + L))
+    o0 = cfg.get('origin', 1990)
+    span = list(range(o0, o0 + L))        # origin -1: the labels straddle zero (a falsy label is a label like any other)
     ctx = Ctx(budget_s=900)
     if cfg['min_iter'] == 'sym':
         ctx.assume(z3.And(z3.Int('min_iter') >= 0, z3.Int('min_iter') <= B + 1), f'0 <= min_iter <= max_iter+1 = {B + 1}')
@@ -449,6 +471,8 @@ def explore_frange(cfg: dict, replay_inputs=None) -> dict:
             for n in names:
                 for j in range(L):
                     m.__dict__['_' + n][j] = src.f(f'{n}_{j}')
+            if cfg.get('inst_check') is not None:
+                m.check = [check[k] for k in cfg['inst_check']]     # the INSTANCE's list of convergence variables, reassigned
             models.append(m)
         m1, m2 = models
         if symbolic:
@@ -547,13 +571,19 @@ def explore_frange(cfg: dict, replay_inputs=None) -> dict:
             res['outcomes'][okey] = res['outcomes'].get(okey, 0) + 1
             if bad:
                 res['mismatch_paths'] += 1
-                if len(res['candidates']) >= 2:
+                if len([c for c in res['candidates'] if c['replay']['bad']]) >= 1 or len(res['candidates']) >= 4:
                     continue
-                inp = witness(ctx, holder['src'], [z3.Or(*terms)] if terms and len(terms) == len(bad) else [], timeout_ms=8000, uf_fallback=True)
+                inp = witness(ctx, holder['src'], [z3.Or(*terms)] if terms and len(terms) == len(bad) else [], timeout_ms=12000, uf_fallback=True)
                 if inp is None:
                     res['spurious_under_uf'] += 1
                     continue
                 cb, _, cout = run(ConSrc(inp), False)
+                if not cb:
+                    for alt in probe_inputs(holder['src'], inp, seed=res['paths']):
+                        cb2, _, cout2 = run(ConSrc(alt), False)
+                        if cb2:
+                            inp, cb, cout = alt, cb2, cout2
+                            break
                 res['candidates'].append({'symbolic': bad, 'inputs': inp, 'replay': {'bad': cb, 'impl': cout, 'ref': None, 'python_engine': None, 'text': text}})
     finally:
         if 'eng' in native:
@@ -583,6 +613,14 @@ def frange_configs(tier: str) -> List[dict]:
         out.append(dict(part='frange', prog=prog, B=1, n_periods=3, errors='raise', failures='ignore', start=None, end=None, min_iter=0, twin=None))
     for start, end in ((1, 1), (0, 1), (1, 0), (None, 0), (1, None)):
         out.append(dict(part='frange', prog='feedback', B=1, n_periods=2, errors='raise', failures='ignore', start=start, end=end, min_iter='sym', twin=None))
+        # the same on a span whose labels straddle zero (-1, 0, 1): explicit bounds that are falsy labels
+        out.append(dict(part='frange', prog='feedback', B=1, n_periods=3, errors='raise', failures='ignore', start=start, end=end, min_iter=0, twin=None,
+                        origin=-1))
+    # the instance's `check` list reassigned (a subset / another order of the class default)
+    for prog, ic in (('slowlast', [0]), ('slowlast', [1]), ('slowfirst', [1]), ('pair', [1, 0])):
+        for B in (1, 2):
+            out.append(dict(part='frange', prog=prog, B=B, n_periods=2, errors='raise', failures='ignore', start=None, end=None, min_iter='sym', twin=None,
+                            inst_check=ic))
     return out
 
 
@@ -614,6 +652,9 @@ def fsolve_configs(tier: str) -> List[dict]:
                                 continue
                             out.append(cfgf(prog=prog, B=B, errors=errors, failures=failures, neg=neg, offset=offset,
                                             extra=1 if prog != 'laglead' else 0))
+    for prog, ic in (('slowlast', [0]), ('slowlast', [1]), ('slowfirst', [1]), ('pair', [1, 0])):
+        for B in (1, 2):
+            out.append(cfgf(prog=prog, B=B, failures='ignore', inst_check=ic))
     return out
 
 
